@@ -173,6 +173,9 @@ PROFILES = {
                  'p_vers': 0.8, 'maxstmts': [3, 4, 5]},
     'bfcontract': {'long': True, 'p_probe': 0.4, 'raise': 30, 'nocreate': 25, 'nonjson': 10,
                    'p_crash': 0.1},
+    # foreign files at build targets + external removal of directory trees + failing builds
+    'forcrash': {'structured': True, 'foreign': True, 'foreign_at_targets': True, 'p_crash': 0.6, 'p_clean': 0.1,
+                 'ext': [1, 2, 3], 'p_rmtree': 0.35, 'p_same_root': 0.85},
     'clean': {'p_clean': 0.6, 'p_double_clean': 0.5, 'p_crash': 0.15, 'foreign': True},
     'cmp': {'p_same_root': 0.9, 'ext_meta': True, 'ext': [1, 1, 2], 'p_crash': 0.0, 'p_clean': 0.0,
             'w_read': True, 'builds': [3, 4]},
@@ -187,8 +190,53 @@ VERSION_TERMS = [
 ]
 
 
+def make_structured(seed, profile):
+    """Template histories that combine: foreign directories/files present before the first
+    build, outputs in nested created directories, external removal / replacement of
+    directory trees between builds, a failing build that overwrites foreign files."""
+    rnd = random.Random('struct:%s:%s' % (profile, seed))
+    orc = {'seed': seed, 'qpaths': UNIVERSE + FOREIGN, 'targets': LEAVES,
+           'fnames': {'0': ['f0a', 'f0b'], '1': ['f1a'], '2': []}, 'maxstmts': rnd.choice([1, 2, 3]),
+           'nargs': 1, 'raise': 5, 'nocreate': 0, 'nonjson': 0, 'w_call': 15}
+    steps = []
+    pre = [{'op': 'ext', 'do': 'mkdir', 'p': ['d']}, {'op': 'ext', 'do': 'write', 'p': ['d', 'fz'], 'c': 'c8', 'sz': 4},
+           {'op': 'ext', 'do': 'mkdir', 'p': ['g']}, {'op': 'ext', 'do': 'write', 'p': ['x'], 'c': 'c9', 'sz': 4},
+           {'op': 'ext', 'do': 'write', 'p': ['y'], 'c': 'c9', 'sz': 6}, {'op': 'ext', 'do': 'write', 'p': ['g', 'w'], 'c': 'c8', 'sz': 6},
+           {'op': 'ext', 'do': 'mkdir', 'p': ['d', 'e']}]
+    steps += [st for st in pre if rnd.random() < 0.45]
+
+    def root(n, crash):
+        ts = rnd.sample(LEAVES, n)
+        r = [{'s': 'bf', 'p': t, 'f': rnd.choice(['f0a', 'f0b']), 'args': [0],
+              'cmp': rnd.choice(['METADATA', 'HASH']), 'catch': rnd.random() < 0.8} for t in ts]
+        r.append({'s': 'raise'} if crash else {'s': 'return'})
+        return r
+    r1 = root(rnd.randrange(1, 4), False)
+    steps.append({'op': 'build', 'name': 'B', 'vers': {}, 'root': r1})
+    mids = [[], [{'op': 'ext', 'do': 'delete', 'p': ['d']}],
+            [{'op': 'ext', 'do': 'delete', 'p': ['d']}, {'op': 'ext', 'do': 'write', 'p': ['d'], 'c': 'c7', 'sz': 4}],
+            [{'op': 'ext', 'do': 'delete', 'p': ['g']}], [{'op': 'ext', 'do': 'delete', 'p': ['d', 'e']}],
+            [{'op': 'ext', 'do': 'delete', 'p': ['d', 'e']}, {'op': 'ext', 'do': 'write', 'p': ['d', 'e'], 'c': 'c7', 'sz': 4}],
+            [{'op': 'ext', 'do': 'delete', 'p': ['g']}, {'op': 'ext', 'do': 'write', 'p': ['g'], 'c': 'c7', 'sz': 6}]]
+    steps += rnd.choice(mids)
+    for t in rnd.sample(LEAVES, rnd.randrange(0, 3)):
+        if rnd.random() < 0.6:
+            steps.append({'op': 'ext', 'do': 'write', 'p': t, 'c': 'c9', 'sz': rnd.choice(SIZES)})
+    r2 = root(rnd.randrange(1, 4), rnd.random() < 0.7) if rnd.random() < 0.6 else r1[:-1] + [{'s': 'raise'}]
+    steps.append({'op': 'build', 'name': 'B', 'vers': {}, 'root': r2})
+    if rnd.random() < 0.3:
+        steps += rnd.choice(mids)
+    steps.append({'op': 'build', 'name': 'B', 'vers': {}, 'root': r2[:-1] + [{'s': 'return'}]})
+    if rnd.random() < 0.4:
+        steps.append({'op': 'clean', 'name': 'B'})
+    return {'id': '%s-s%d' % (profile, seed), 'cache': ['k'], 'universe': UNIVERSE + FOREIGN, 'oracle': orc,
+            'steps': steps}
+
+
 def make_scenario(seed, profile='general'):
     P = PROFILES[profile]
+    if P.get('structured') and seed % 2 == 1:
+        return make_structured(seed, profile)
     rnd = random.Random('%s:%s' % (profile, seed))
     cache = ['k']
     qpaths = list(UNIVERSE)
@@ -222,6 +270,11 @@ def make_scenario(seed, profile='general'):
             if do == 'write':
                 st['sz'] = rnd.choice(SIZES)
             return st
+        if P.get('p_rmtree') and rnd.random() < P['p_rmtree']:
+            return {'op': 'ext', 'do': 'delete', 'p': rnd.choice(DIRS + [['d'], ['g']])}
+        if P.get('foreign_at_targets') and rnd.random() < 0.5:
+            return {'op': 'ext', 'do': 'write', 'p': rnd.choice(LEAVES + DIRS),
+                    'c': rnd.choice(['c8', 'c9']), 'sz': rnd.choice(SIZES)}
         if P.get('foreign') and rnd.random() < 0.5:
             return {'op': 'ext', 'do': 'write', 'p': rnd.choice(FOREIGN + [['kz']]),
                     'c': rnd.choice(['c8', 'c9']), 'sz': rnd.choice(SIZES)}
